@@ -435,7 +435,9 @@ impl<const K: usize> AffTree<K> {
                                 poly.distance(&solution)
                             );
                             counter.lps_error += 1;
-                            NodeState::Indeterminate
+                            // the solver found the polytope feasible; only its point is too
+                            // inaccurate to be cached (same verdict as for an unbounded LP)
+                            NodeState::Feasible
                         } else {
                             warn!("LP solver returned an incorrect solution that could be fixed");
                             counter.lps_feasible += 1;
@@ -447,7 +449,7 @@ impl<const K: usize> AffTree<K> {
                             poly.distance(&solution)
                         );
                         counter.lps_error += 1;
-                        NodeState::Indeterminate
+                        NodeState::Feasible
                     }
                 } else {
                     counter.lps_feasible += 1;
